@@ -69,7 +69,7 @@ fn main() {
                     start = Some(Instant::now());
                 }
                 let r = send(&server, &q, src, *tr, &mut buf);
-                let c = classify(&r, &buf, edns || kind.starts_with('v'));
+                let c = classify(&r, &buf, edns || forces_edns(kind));
                 let c = match c.as_str() {
                     "-" if kind.starts_with('m') => "-".to_string(), // no response before RRL
                     "-" if slip >= 2 => "L".to_string(),
